@@ -10,11 +10,11 @@
 (* The result is again a sequence of classes (the caller maps classes to   *)
 (* code points).                                                           *)
 (*                                                                         *)
-(* Deviations of today's parser/src/parse/utils.rs block_string_value are  *)
-(* named alternative operators selected by `dev`:                          *)
-(*   DevBlockEscape     \""" is kept verbatim instead of becoming """      *)
-(*   DevBlockShortBlank a white-space-only line shorter than the common    *)
-(*                      indent keeps its blanks                            *)
+(* parse/utils.rs block_string_value used to deviate (\""" kept verbatim;   *)
+(* blanks of a white-space-only line shorter than the common indent kept); *)
+(* both were repaired in /repo (0f9d8c5), their switches are deleted and   *)
+(* the check demands the algorithm below.  `dev` is kept as a parameter so *)
+(* that a future deviation can be named here; BlockDevs is empty.          *)
 (***************************************************************************)
 EXTENDS Naturals, Sequences, FiniteSets
 
@@ -50,9 +50,7 @@ CommonIndent(lines) ==
   IN IF cand = {} THEN 0 ELSE CHOOSE m \in cand : \A x \in cand : m <= x
 
 Min(a, b) == IF a < b THEN a ELSE b
-Dedent(line, ci, dev) ==
-  IF "DevBlockShortBlank" \in dev /\ Len(line) < ci THEN line
-  ELSE SubSeq(line, Min(ci, Len(line)) + 1, Len(line))
+Dedent(line, ci, dev) == SubSeq(line, Min(ci, Len(line)) + 1, Len(line))
 
 \* steps 4-5: remove leading and trailing blank lines
 RECURSIVE DropLeading(_)
@@ -67,7 +65,7 @@ Join(ls, i, acc) ==
   ELSE Join(ls, i + 1, IF i = 1 THEN ls[i] ELSE acc \o <<"LF">> \o ls[i])
 
 BlockStringValueDev(raw, dev) ==
-  LET r     == IF "DevBlockEscape" \in dev THEN raw ELSE Unescape(raw, 1, <<>>)
+  LET r     == Unescape(raw, 1, <<>>)
       lines == SplitLines(r, 1, <<>>, <<>>)
       ci    == CommonIndent(lines)
       ded   == [i \in 1..Len(lines) |-> IF i = 1 THEN lines[i] ELSE Dedent(lines[i], ci, dev)]
@@ -75,7 +73,7 @@ BlockStringValueDev(raw, dev) ==
 
 BlockStringValue(raw) == BlockStringValueDev(raw, {})
 
-BlockDevs == {"DevBlockEscape", "DevBlockShortBlank"}
+BlockDevs == {}
 \* The deviations that show on this raw value (trigger predicates).
 BlockDevsUsed(raw, dev) == {d \in dev \cap BlockDevs : BlockStringValueDev(raw, {d}) # BlockStringValue(raw)}
 
